@@ -434,7 +434,7 @@ fn gen_array(src: &mut Src, depth: usize, ncells: usize) -> MArray {
         1 => (0, src.i64_in(1, 40)),
         _ => (src.signed(40), src.signed(40)),
     };
-    MArray { unit, count: src.usize_in(1, 6), sep }
+    MArray { unit, count: if src.prob(1, 10) { 0 } else { src.usize_in(1, 6) }, sep }
 }
 /// reference expansion: (name, cell, loc, rh, rv) with all-zero origin and no reflection
 fn expand(a: &MArray, prefix: &str) -> Vec<(String, usize, P, bool, bool)> {
@@ -525,7 +525,7 @@ fn array_case(src: &mut Src, ctx: &mut Ctx) -> Result<(), String> {
 }
 
 fn run(run: &mut Run) {
-    run.rule("The single-relation table (4 sides x 2 orthogonal alignments x 4 reflections of the placed x 4 of the reference instance x 3 separation kinds = 384, exhaustive); random programs of 1-25 instances over 1-5 cell sizes: 1-3 absolute roots, every other instance placed relative to an earlier one (chains and trees), all sides/alignments/reflections/separations, instance indices relabelled and the listing shuffled, each placed in two listing orders; cyclic programs (cycle length 1-5 spliced in) must be errors; absolute array instances with count 1-6, pitch in x and/or y, both reflections, nesting depth <= 3. Oracle: bounding-box model of the relation; Instance::boundbox() must agree. Non-trivial = chain depth >= 2 with a reflected relative instance and a listing that is not dependency order; distinct by hash of the program.");
+    run.rule("The single-relation table (4 sides x 2 orthogonal alignments x 4 reflections of the placed x 4 of the reference instance x 3 separation kinds = 384, exhaustive); random programs of 1-25 instances over 1-5 cell sizes: 1-3 absolute roots, every other instance placed relative to an earlier one (chains and trees), all sides/alignments/reflections/separations, instance indices relabelled and the listing shuffled, each placed in two listing orders; cyclic programs (cycle length 1-5 spliced in) must be errors; absolute array instances with count 0-6, pitch in x and/or y, both reflections, nesting depth <= 3. Oracle: bounding-box model of the relation; Instance::boundbox() must agree. Non-trivial = chain depth >= 2 with a reflected relative instance and a listing that is not dependency order; distinct by hash of the program.");
     run.assume("non-orthogonal side/alignment pairs, Center/Ports alignment, placement relative to arrays/groups and relative array placement are unimplemented in the code and outside the quantifier");
     run.min_nontrivial = 200;
     run.enumerate("relation-table", table_total(), &table_case);
